@@ -25,7 +25,7 @@ pub const fn ilog_exact(n: Word, base: Word) -> u32
             base >= 2, (n as int - 1) * (base as int) <= Word::MAX,
             exp >= 1, pow as int == ipow(base as int, exp as nat),
             ipow(base as int, (exp - 1) as nat) < n,
-        decreases n - pow
+        decreases (if pow < n { n - pow } else { 0 })
     @*/
     {
         /*@ proof {
